@@ -149,7 +149,8 @@ def Inv (s : SlaveCtx) : Prop :=
 
 instance (s : SlaveCtx) : Decidable s.Inv := by unfold Inv; exact inferInstance
 
-def off (s : SlaveCtx) (a : Int) : Int := if s.zeroMode then a else a + 1
+/-- `if not self.zero_mode: address = address + 1` -/
+def off (s : SlaveCtx) (a : Int) : Int := a + (bif s.zeroMode then 0 else 1)
 
 def blockOf (s : SlaveCtx) (fx : Nat) : PyM (Nat × Block) :=
   match fxTable fx with
